@@ -274,8 +274,10 @@ def native_playback_batch(items, feats=""):
     res = {}
     for uniq in names:
         m = re.search(r"^test playback_gen::%s \.\.\. (\w+)" % re.escape(uniq), out, re.M)
-        failed = bool(m and m.group(1) == "FAILED")
         mm = re.search(r"thread 'playback_gen::%s'[^\n]*panicked at [^\n]*\n([^\n]*)" % re.escape(uniq), out)
+        # with --nocapture the panic text is interleaved between `test X ...` and `FAILED`
+        in_failures = bool(re.search(r"^failures:\n(?:\s+\S+\n)*?\s+playback_gen::%s\n" % re.escape(uniq), out, re.M))
+        failed = bool(m and m.group(1) == "FAILED") or in_failures or bool(mm)
         res[uniq] = (failed, (mm.group(0) if mm else ("test did not panic" if m else out[-600:])))
     return dict(zip([i[0] + "|" + str(k) for k, i in enumerate(items)], [res[u] for u in names]))
 
@@ -334,7 +336,9 @@ def match_known(known, prop, obl_id, descs):
 # --------------------------------------------------------------------------
 
 def write_evidence(prop, ev):
-    d = VERIF / "evidence"
+    # VERIF_EVIDENCE_DIR: used by tools/run_seed.sh so that runs against a seeded (modified) tree never
+    # overwrite the evidence of the real tree
+    d = Path(os.environ["VERIF_EVIDENCE_DIR"]) if os.environ.get("VERIF_EVIDENCE_DIR") else VERIF / "evidence"
     d.mkdir(exist_ok=True)
     (d / f"{prop}.json").write_text(json.dumps(ev, indent=1))
 
